@@ -4,6 +4,8 @@
   Helper lemmas: Lemmas/HashJoin.lean, Lemmas/KeyedJoin.lean, Lemmas/JoinShip.lean, Lemmas/SortMergeJoin.lean.
 -/
 import NoirVerif.Lemmas.HashJoin
+import NoirVerif.Lemmas.KeyedJoin
+import NoirVerif.Lemmas.JoinShip
 namespace Noir.Join
 
 variable {κ α β : Type} [DecidableEq κ]
@@ -44,6 +46,86 @@ theorem relJoin_mem (v : Variant) (kl : α → κ) (kr : β → κ) (L : List α
       ∨ (v.rightOuter = true ∧ ∃ r ∈ R, (∀ l ∈ L, kl l ≠ kr r) ∧ o = (kr r, none, some r)) := by
   cases v <;>
     simp [relJoin, Variant.leftOuter, Variant.rightOuter, mem_pairs, mem_unmatchedL, mem_unmatchedR]
+
+
+/-! ### Keyed-stream joins -/
+
+/-- **C08 (`KeyedStream::join_outer`, `JoinKeyedOuter`).** For every interleaving, the output is the
+    full-outer relational join on the stream key, with the key stripped from the joined values. -/
+theorem keyedJoin_outer_correct (L : List (κ × α)) (R : List (κ × β)) (tr : List (Bin (κ × α) (κ × β)))
+    (h : Interleave (L.map Bin.left ++ [Bin.leftEnd]) (R.map Bin.right ++ [Bin.rightEnd]) tr) :
+    (KeyedJoin.outerRun tr).Perm ((relJoin .outer Prod.fst Prod.fst L R).map KeyedJoin.strip) := by
+  rw [KeyedJoin.outerRun, KeyedJoin.outerFeed_eq]
+  exact (hashJoin_correct .outer Prod.fst Prod.fst L R tr h).map _
+
+/-- **C08 (`KeyedStream::join`, `JoinKeyedInner`).** For every interleaving, the output is the inner
+    relational join on the stream key; at the end both maps are empty (the `assert!`s of the
+    `FlushAndRestart` arm hold) and the `FlushAndRestart` restores the initial state. -/
+theorem keyedJoin_correct (L : List (κ × α)) (R : List (κ × β)) (tr : List (Bin (κ × α) (κ × β)))
+    (h : Interleave (L.map Bin.left ++ [Bin.leftEnd]) (R.map Bin.right ++ [Bin.rightEnd]) tr) :
+    (KeyedJoin.innerRun tr).Perm (KeyedJoin.relJoinInner L R)
+      ∧ KeyedJoin.innerFarOk (KeyedJoin.innerStateAfter KeyedJoin.InnerState.init tr) = true
+      ∧ KeyedJoin.innerFar (KeyedJoin.innerStateAfter KeyedJoin.InnerState.init tr)
+          = KeyedJoin.InnerState.init := by
+  obtain ⟨h1, h2⟩ := KeyedJoin.inner_feed_interleaving tr KeyedJoin.InnerState.init false false [] L [] R
+    KeyedJoin.innerInv_init (fun h => by cases h) (fun h => by cases h) h
+  obtain ⟨hl, hr⟩ := h2.done rfl rfl
+  refine ⟨by simpa [KeyedJoin.innerRun, KeyedJoin.relJoinInner] using h1, ?_, ?_⟩
+  · simp [KeyedJoin.innerFarOk, hl, hr]
+  · have e1 := h2.lend; have e2 := h2.rend
+    cases hs : KeyedJoin.innerStateAfter KeyedJoin.InnerState.init tr with
+    | mk l r le re =>
+      rw [hs] at hl hr e1 e2
+      simp only at hl hr e1 e2
+      subst hl hr
+      simp [KeyedJoin.innerFar, KeyedJoin.InnerState.init]
+
+/-- the keyed inner join is the inner `relJoin` with the key stripped -/
+theorem relJoinInner_eq (L : List (κ × α)) (R : List (κ × β)) :
+    KeyedJoin.relJoinInner L R
+      = (relJoin .inner Prod.fst Prod.fst L R).filterMap fun o =>
+          match o with
+          | (k, some l, some r) => some (k, l.2, r.2)
+          | _ => none := by
+  simp only [KeyedJoin.relJoinInner, relJoin, Variant.leftOuter, Variant.rightOuter, pairs,
+    Bool.false_eq_true, if_false, List.append_nil]
+  induction L with
+  | nil => rfl
+  | cons l L ih =>
+    simp only [List.flatMap_cons, List.filterMap_append, ih]
+    congr 1
+    simp [List.filterMap_map, Function.comp_def]
+
+/-! ### Shipping -/
+
+/-- **C08 (hash shipping co-partitions).** When both inputs are partitioned among `n` replicas by a
+    function of the key (`NextStrategy::group_by(keyer)` on both sides, ship.rs:76), the union over the
+    replicas of the per-replica joins is the join of the whole inputs — for all three variants. -/
+theorem hashShip_copartitions (v : Variant) (kl : α → κ) (kr : β → κ) (n : Nat) (h : κ → Nat)
+    (hn : ∀ k, h k < n) (L : List α) (R : List β) :
+    (relJoin v kl kr L R).Perm
+      ((List.range n).flatMap fun i =>
+        relJoin v kl kr (L.filter fun l => decide (h (kl l) = i)) (R.filter fun r => decide (h (kr r) = i))) :=
+  relJoin_copartition kl kr v h n L R (fun l _ => hn (kl l)) (fun r _ => hn (kr r))
+
+/-- **C08 (broadcast-right shipping).** When the left input is split arbitrarily among the replicas
+    (`parts`) and every replica receives the whole right input (`NextStrategy::all()`, ship.rs:131), the
+    union of the per-replica inner (resp. left) joins is the inner (resp. left) join of the whole
+    inputs. -/
+theorem broadcastRight_union (v : Variant) (hv : v = .inner ∨ v = .left) (kl : α → κ) (kr : β → κ)
+    (L : List α) (R : List β) (parts : List (List α)) (hp : L.Perm parts.flatten) :
+    (relJoin v kl kr L R).Perm (parts.flatMap fun P => relJoin v kl kr P R) :=
+  broadcastRight_union_aux kl kr v (by rcases hv with rfl | rfl <;> rfl) L R parts hp
+
+/-- why `ship_broadcast_right` offers no `outer()`: with two replicas, a right element matched on one
+    replica is reported unmatched by the other. -/
+example :
+    ¬ (relJoin .outer id id [1, 2] [1]).Perm
+        ([[1], [2]].flatMap fun P => relJoin .outer (id : Nat → Nat) (id : Nat → Nat) P [1]) := by
+  intro h
+  have := h.length_eq
+  revert this
+  decide
 
 /-- Non-vacuity: an outer join with duplicate keys, one-sided keys and the right side ending first. -/
 example :
